@@ -124,6 +124,9 @@ type World struct {
 	stop    bool
 	fp      *fpRegistry
 	inTwin  bool
+	// classPrefix / classSuffix: added to the class of every violation reported
+	// while set (observations made on a derived state, coincident.go)
+	classPrefix, classSuffix string
 }
 
 func (w *World) logf(format string, a ...interface{}) {
@@ -536,6 +539,7 @@ func (w *World) violate(n *Node, prop, class, detail string) {
 		class += "/prefix-share"
 		defer func() { n.dead = true }()
 	}
+	class = w.classPrefix + class + w.classSuffix
 	v := Violation{Property: prop, Class: class, Step: w.step, Detail: detail}
 	if n != nil {
 		v.Node = n.name
